@@ -162,7 +162,8 @@ type c07gen struct {
 	// excepted). The model does not distinguish a missing metadata.name from `name: ""`, which the name
 	// transformers, CopyMergeMetaDataFieldsFrom and ApplySmPatch do; odd sequences therefore use only the
 	// operations that do not write names.
-	odd bool
+	odd     bool
+	pending []opspec // operations forced to come next (adversarial two-step scenarios)
 }
 
 func (g *c07gen) tag() string {
@@ -416,6 +417,39 @@ func uniformKinds(st []obsRes) bool {
 	return true
 }
 
+// hashSideConditions evaluates hash_lengths_equal and no_plain_clash of the model on the observed state.
+func hashSideConditions(st []obsRes, tab [][2]string) bool {
+	h := map[string]string{}
+	l := -1
+	for _, e := range tab {
+		h[e[0]] = e[1]
+		if l >= 0 && len(e[1]) != l {
+			return false
+		}
+		l = len(e[1])
+	}
+	for _, a := range st {
+		if a.ann[c07NeedsHash] != "enabled" {
+			continue
+		}
+		hv, ok := h[a.tag]
+		if !ok {
+			continue
+		}
+		na := a.id
+		na.Name = a.id.Name + "-" + hv
+		for _, b := range st {
+			if b.ann[c07NeedsHash] == "enabled" {
+				continue
+			}
+			if na.Equals(b.id) {
+				return false
+			}
+		}
+	}
+	return true
+}
+
 func internalKeysPresent(a map[string]string, bm []string) []string {
 	want := map[string]bool{}
 	for _, b := range bm {
@@ -644,6 +678,19 @@ func (g *c07gen) genOp(m resmap.ResMap) opspec {
 		}
 		return cur[g.rng.Intn(len(cur))]
 	}
+	if len(g.pending) > 0 {
+		o := g.pending[0]
+		g.pending = g.pending[1:]
+		return o
+	}
+	tagOf := func(t *resource.Resource) string {
+		if v, err := t.GetFieldValue("tag"); err == nil {
+			if s, ok := v.(string); ok {
+				return s
+			}
+		}
+		return ""
+	}
 	k := g.rng.Intn(100)
 	if g.odd {
 		// operations that never write metadata.name
@@ -702,6 +749,29 @@ func (g *c07gen) genOp(m resmap.ResMap) opspec {
 	case k < 70:
 		return opspec{Op: "namespace", Str: g.rng.Pick([]string{"x", "y", "x", "", "default"})}
 	case k < 75:
+		if g.rng.Chance(40) {
+			// adversarial: give another resource of the same kind and namespace the name a hashed one is about to get
+			for _, a := range cur {
+				if a.IsNilOrEmpty() || a.GetAnnotations()[c07NeedsHash] != "enabled" {
+					continue
+				}
+				for _, b := range cur {
+					if b == a || b.IsNilOrEmpty() || b.GetAnnotations()[c07NeedsHash] == "enabled" {
+						continue
+					}
+					ia, ib := a.CurId(), b.CurId()
+					if ia.Gvk.Equals(ib.Gvk) && ia.IsNsEquals(ib) && tagOf(b) != "" {
+						if h, err := a.Hash(c07Factory.Hasher()); err == nil {
+							g.pending = append(g.pending, opspec{Op: "hash"})
+							if g.rng.Chance(50) {
+								g.pending = append(g.pending, opspec{Op: "ignorelocal"})
+							}
+							return opspec{Op: "rawrename", PName: tagOf(b), Str: a.GetName() + "-" + h}
+						}
+					}
+				}
+			}
+		}
 		return opspec{Op: "hash"}
 	case k < 81:
 		return opspec{Op: "sortlegacy"}
@@ -719,6 +789,20 @@ func (g *c07gen) genOp(m resmap.ResMap) opspec {
 		}
 		return o
 	case k < 93:
+		if g.rng.Chance(50) {
+			// aim at a clash: rename a resource to the name of another one of the same kind and namespace
+			for _, a := range cur {
+				for _, b := range cur {
+					if a == b || a.IsNilOrEmpty() || b.IsNilOrEmpty() || tagOf(b) == "" {
+						continue
+					}
+					ia, ib := a.CurId(), b.CurId()
+					if ia.Gvk.Equals(ib.Gvk) && ia.IsNsEquals(ib) && ia.Name != ib.Name && ia.Name != "" {
+						return opspec{Op: "rawrename", PName: tagOf(b), Str: ia.Name}
+					}
+				}
+			}
+		}
 		t := pickCur()
 		tag := "t1"
 		if t != nil && !t.IsNilOrEmpty() {
@@ -921,6 +1005,11 @@ func runSeq07(r *Run, g *c07gen, sq *seq07, nOps int, toModel bool) {
 			if o.Str == "" && uniqB && !uniqA {
 				report("ids_unique", "C07/ids_unique/namespace", "empty namespace changed identities")
 			}
+		case "hash":
+			// C07_ids_unique_hash_partial: equal hash lengths and no plain resource already carrying a hashed name
+			if uniqB && hashSideConditions(before, hashTab) && !uniqA {
+				report("ids_unique", "C07/ids_unique/hash", "ids were unique, no plain resource carried a hashed name, yet ids clash after hashing: "+coqState(after))
+			}
 		case "prefix", "suffix":
 			if uniqB && !anyEmpty(before) && uniformKinds(before) && !uniqA {
 				report("ids_unique", "C07/ids_unique/rename/"+o.Op, "ids were unique before a uniform "+o.Op+" and are not afterwards: "+coqState(after))
@@ -1047,7 +1136,7 @@ func loadCorpus07() corpus07 {
 func runC07(r *Run, rng *Rng, tier string) error {
 	log.SetOutput(io.Discard)
 	r.shard = 100
-	nSeq, nStrip, nLawSeq, nBuild := 900, 250, 1300, 260
+	nSeq, nStrip, nLawSeq, nBuild := 750, 200, 1300, 260
 	if tier == "thorough" {
 		nSeq, nStrip, nLawSeq, nBuild = 8000, 2000, 30000, 4000
 	}
